@@ -199,6 +199,11 @@ func (da *doubleArray) lookup(path string, params []Param, idx int) (*node, []Pa
 			indices = append(indices, (uint64(i)<<indexOffset)|(uint64(idx)&indexMask))
 		}
 		c := path[i]
+		if c == ParamCharacter || c == WildcardCharacter || c == TerminationCharacter {
+			// reserved characters in the looked-up path never match an edge of the trie:
+			// they can only be part of a parameter value.
+			goto BACKTRACKING
+		}
 		if idx = nextIndex(da.bc[idx].Base(), c); idx >= len(da.bc) || da.bc[idx].Check() != c {
 			goto BACKTRACKING
 		}
@@ -216,7 +221,7 @@ BACKTRACKING:
 				break
 			}
 
-			next := NextSeparator(path, i)
+			next := nextPathSeparator(path, i)
 			nextParams := params
 			nextParams = append(nextParams, Param{Value: path[i:next]})
 			if nd, nextNextParams, found := da.lookup(path[next:], nextParams, nextIdx); found {
